@@ -3,6 +3,7 @@ package checks
 import (
 	"bytes"
 	"fmt"
+	"github.com/go-i2p/common/data"
 
 	"verif/internal/adapt"
 	"verif/internal/core"
@@ -319,6 +320,49 @@ func runC10(r *core.Run) {
 					}
 				}
 				r.Distinct([]byte("layout"), in)
+			}
+		}
+	}
+	// one certificate OBJECT stepped through every code (SpkType / CpkType are exported fields; the sweep above
+	// builds a fresh certificate per code, which cannot see sizes remembered from construction time): constructed
+	// and parsed certificates, signing axis then crypto axis, sequentially
+	for _, origin := range []string{"NewKeyCertificateWithTypes(7,4)", "NewKeyCertificate(bytes)"} {
+		var kc *key_certificate.KeyCertificate
+		if origin == "NewKeyCertificateWithTypes(7,4)" {
+			kc, _ = key_certificate.NewKeyCertificateWithTypes(7, 4)
+		} else {
+			kc, _ = adapt.ParsedKeyCert(7, 4, nil)
+		}
+		if kc == nil {
+			continue
+		}
+		for code := 0; code < 65536; code++ {
+			r.Evaluations.Add(1)
+			si, sKnown := refmodel.SigTable[code]
+			kc.SpkType = data.Integer(refmodel.BE(uint64(code), 2))
+			var p, sg int
+			if pan, msg := core.Guard(func() { p, sg = kc.SigningPublicKeySize(), kc.SignatureSize() }); pan {
+				bad("stepped-certificate", "KeyCertificate.SigningPublicKeySize/SignatureSize", code, "panics after SpkType was set to %d on a certificate from %s: %s", code, origin, msg)
+				break
+			}
+			if kc.SigningPublicKeyType() != code || (sKnown && (p != si.PubLen || sg != si.SigLen)) || (!sKnown && (p != 0 || sg != 0)) {
+				bad("stepped-certificate", "KeyCertificate.SigningPublicKeySize/SignatureSize", code, "a certificate from %s whose SpkType was set to %d reports type %d, key %d, signature %d bytes; table: known=%v %d/%d", origin, code, kc.SigningPublicKeyType(), p, sg, sKnown, si.PubLen, si.SigLen)
+				break
+			}
+		}
+		kc.SpkType = data.Integer(refmodel.BE(7, 2))
+		for code := 0; code < 65536; code++ {
+			r.Evaluations.Add(1)
+			cl, cKnown := refmodel.CryptoTable[code]
+			kc.CpkType = data.Integer(refmodel.BE(uint64(code), 2))
+			var n int
+			if pan, msg := core.Guard(func() { n = kc.CryptoSize() }); pan {
+				bad("stepped-certificate", "KeyCertificate.CryptoSize", code, "panics after CpkType was set to %d on a certificate from %s: %s", code, origin, msg)
+				break
+			}
+			if kc.PublicKeyType() != code || (cKnown && n != cl) || (!cKnown && n != 0) {
+				bad("stepped-certificate", "KeyCertificate.CryptoSize", code, "a certificate from %s whose CpkType was set to %d reports type %d, key %d bytes; table: known=%v %d", origin, code, kc.PublicKeyType(), n, cKnown, cl)
+				break
 			}
 		}
 	}
